@@ -861,6 +861,8 @@ def check_case(ctx, mode, case):
     nvar = sum(1 for p in pieces if p[0] == "val")
     if fam == "empty-parts":
         return check_empty_parts(ctx, mode, case, src, pieces, got, rec)
+    if fam == "warning-text":
+        return check_warn_text(ctx, mode, case, src, pieces, got, rec)
     if len(pieces) == 1 and pieces[0][0] == "val" and not isinstance(pieces[0][1], str):
         ctx.count("identity_checks")
         exp_kind = "identity"
@@ -936,6 +938,144 @@ def check_empty_parts(ctx, mode, case, src, pieces, got, rec):
                               keypfx=f"{mode}:empty-parts")
     ctx.dist((mode, "empty", scope, [e for e, _ in used][:3], len(silent) > 0,
               type(value).__name__, has_data, exp_kind))
+
+
+# ---- texts whose string literals contain BACKSLASH sequences, and other texts at which Python
+# itself emits a warning while parsing (configuration templating: quoted Windows paths, regular
+# expressions).  "Parses as a literal" is ast.literal_eval's verdict (the function the
+# documentation names) with Python's warnings ignored: a warning is not a failure to parse.
+# class -> contents of a string literal (placed between quotes by the generator)
+ESC_CONTENTS = {
+    "unrecognised-escape": ["\\d+", "^\\s*#", "\\w+\\.\\w+", "a\\/b", "\\.", "\\ ", "x\\-y", "\\(\\)",
+                            "100\\%", "\\d", "\\s", "\\w", "a\\qb", "\\_", "\\: \\;"],
+    "recognised-escape": ["a\\nb", "\\t", "\\\\", "a\\\\b", "\\x41", "\\101", "\\0", "\\a\\b\\f\\v",
+                          "line\\n\\tnext", "\\\\d", "q\\\\", "\\\\\\\\host"],
+    "escaped-quote": ["it\\'s", "say \\\"hi\\\"", "\\'", "a\\\"b\\'c"],
+    "windows-path": ["C:\\data\\new", "C:\\dir\\file.txt", "D:\\temp\\x.txt", "C:\\Users\\me",
+                     "\\\\server\\share", "C:\\Program Files\\App", "C:\\dir\\",
+                     "c:\\windows\\system32", "..\\lib\\site-packages", "C:\\\\ok\\\\path"],
+    "regex": ["^\\d{3}-\\d{4}$", "\\bword\\b", "(\\w+)@(\\w+)\\.com", "[^\\]]+", "\\s+|\\S+", "\\A\\Z",
+              "^\\[(.*)\\]$", "(?P<n>\\d+)\\1", "\\$\\{name\\}", "a\\|b"],
+    "unicode-escape": ["\\u00e9", "\\N{BULLET}", "\\U0001F600", "\\u12", "\\N{NO SUCH NAME}",
+                       "\\u00e9\\d", "\\x4", "\\xe9t\\xe9", "\\ud800"],
+    "octal-escape": ["\\400", "\\777", "\\8", "\\18", "\\1234"],
+    "trailing-backslash": ["abc\\", "abc\\\\", "abc\\\\\\", "\\"],
+}
+# whole texts: a number directly followed by a keyword, `is` with a literal, calling a literal
+ODD_TEXTS = ["1if 1else 2", "1or 2", "0x1for x in y", "[1]if 1else[2]", "1in[1]", "1is 1", "1 is 1",
+             "'a' is 'a'", "[1, 2](3)", "1and 0", "0o7if 1else 2", "1.5if 1else 2", "1jor 2",
+             "[1for x in y]", "{1:1if 1else 2}", "(1)is not 1", "1_0if 1else 0", "'a'[1, 2]"]
+ESC_CLASSES = sorted(ESC_CONTENTS)
+ESC_QUOTES = ["'", "'", '"', "'" * 3]
+# (name, text with S for the string literal)
+ESC_SHAPES = [("scalar", "S"), ("list", "[S, 'x']"), ("dict-value", "{'pattern': S, 'n': 2}"),
+              ("tuple", "(S,)"), ("dict-key", "{S: 1}"), ("nested", "[[S], {'k': (S, 1.5)}]"),
+              ("adjacent", "S 'b'"), ("set", "{S, 'z'}")]
+
+
+def parse_warnings(text):
+    """Categories of the warnings Python emits while parsing `text` as an expression."""
+    import warnings
+
+    with warnings.catch_warnings(record=True) as rec:
+        warnings.simplefilter("always")
+        try:
+            ast.parse(text, mode="eval")
+        except BaseException:  # noqa: BLE001 - not an expression
+            pass
+    return sorted({w.category.__name__ for w in rec})
+
+
+def gen_warn_case(r):
+    """-> segment case (as gen_case) + "family": "warning-text", "cls", "shape", "route"."""
+    data = {}
+    nv = [0]
+
+    def newvar(recipe):
+        nv[0] += 1
+        n = f"v{nv[0]}"
+        data[n] = recipe
+        return n
+
+    def cut(text, ncuts):
+        cuts = sorted(r.sample(range(len(text) + 1), min(len(text) + 1, ncuts)))
+        parts = [text[a:b] for a, b in zip([0] + cuts, cuts + [len(text)])]
+        segs = []
+        for j, part in enumerate(parts):
+            if not part:
+                continue
+            if (j + r.randrange(2)) % 2 or "{{" in part or "{%" in part or "{#" in part \
+                    or part.endswith("{"):
+                segs.append(["var", newvar(["str", part]), ""])
+            else:
+                segs.append(["data", part])
+        return segs
+
+    if r.random() < 0.12:
+        text = r.choice(ODD_TEXTS)
+        route = r.choice(["string-node", "cut"])
+        segs = [["var", newvar(["str", text]), ""]] if route == "string-node" else \
+            cut(text, r.randint(1, 3))
+        return {"family": "warning-text", "cls": "number-keyword-adjacency", "shape": "scalar",
+                "route": route, "segs": segs, "data": data}
+    cls = r.choice(ESC_CLASSES)
+    content = r.choice(ESC_CONTENTS[cls])
+    q = r.choice(ESC_QUOTES)
+    prefix = r.choice(["", "", "", "", "b", "r", "u"])
+    if prefix == "b" and not content.isascii():
+        prefix = ""
+    shape, pattern = r.choice(ESC_SHAPES)
+    lit = prefix + q + content + q
+    text = pattern.replace("S", lit)
+    route = r.choice(["string-node", "cut", "cut", "quoted-variable", "quoted-variable",
+                      "loop-join"])
+    if route == "string-node":
+        segs = [["var", newvar(["str", text]), ""]]
+    elif route == "cut":
+        segs = cut(text, r.randint(1, 4))
+    elif route == "quoted-variable":
+        # the structure is template data, the contents of the string literal are a variable
+        segs = []
+        parts = pattern.split("S")
+        for j, part in enumerate(parts):
+            if part:
+                segs.append(["data", part])
+            if j + 1 < len(parts):
+                segs.append(["data", prefix + q])
+                segs.append(["var", newvar(["str", content]), ""])
+                segs.append(["data", q])
+    else:
+        # [{% for item in xs %}{{ item }}, {% endfor %}] over quoted items
+        items = [["str", lit], ["str", "'x'"]]
+        if r.random() < 0.5:
+            items.reverse()
+        shape = "list"
+        segs = [["data", "["], ["for", newvar(["list", items]), ", "], ["data", "]"]]
+    return {"family": "warning-text", "cls": cls, "shape": shape, "route": route,
+            "segs": segs, "data": data}
+
+
+def check_warn_text(ctx, mode, case, src, pieces, got, rec):
+    """NativeTemplate.render: 'the nodes are concatenated as strings. If the result can be parsed
+    with ast.literal_eval, the parsed value is returned. Otherwise, the string is returned.' -
+    for texts at which Python's parser emits a warning (unrecognised backslash escapes in a
+    string literal, a number directly followed by a keyword) exactly as for any other text."""
+    text = "".join(str(p[1]) for p in pieces)
+    cls = case["cls"]
+    ctx.count("warn_text_cases")
+    ctx.count("warn_text:" + cls)
+    ctx.count("warn_text_route:" + case["route"])
+    cats = parse_warnings(text)
+    if "\\" in text:
+        ctx.count("warn_text_with_backslash")
+    if cats:
+        ctx.count("warn_text_python_warns_while_parsing")
+    exp_kind = judge_text(ctx, mode, src, text, got, rec,
+                          keypfx=f"{mode}:text-with-{cls}" +
+                          (":python-parser-warns" if cats else ""))
+    if cats and exp_kind.startswith("literal"):
+        ctx.count("warn_text_python_warns_and_text_is_a_literal")
+    ctx.dist((mode, "warning-text", cls, case["shape"], case["route"], cats, exp_kind))
 
 
 def judge_text(ctx, mode, src, text, got, rec, keypfx=None):
@@ -1736,6 +1876,18 @@ def run(ctx):
                         "data": case["data"]})
         if not quick and ctx.elapsed() > ctx.budget_s * 0.5:
             ctx.count("empties_timeboxed")
+            break
+    rng = ctx.rng("warning-texts")
+    for i in range(70 if quick else 4000):
+        case = gen_warn_case(rng)
+        for mode in MODES:
+            check_case(ctx, mode, case)
+        if i < 2:
+            ctx.sample({"src": realize(case["segs"], {k: make_value(v) for k, v in
+                                                      case["data"].items()})[0],
+                        "data": case["data"], "class": case["cls"]})
+        if not quick and ctx.elapsed() > ctx.budget_s * 0.57:
+            ctx.count("warning_texts_timeboxed")
             break
     rng = ctx.rng("cases")
     n_max = 700 if quick else 30000
